@@ -11,7 +11,7 @@ Definition uses_cl (ph : h3phase) (cl : clid) : Prop :=
   end.
 
 Record h3inv (s : h3state) : Prop := mkI3 {
-  A3 : forall cl, cl_use s cl = Z.of_nat (length (cl_users s cl) + cl_leak s cl);
+  A3 : forall cl, cl_use s cl = Z.of_nat (length (cl_users s cl));
   B31 : forall cl, NoDup (cl_users s cl);
   B32 : forall cl q, In q (cl_users s cl) -> uses_cl (q_phase s q) cl;
   B33 : forall q cl, uses_cl (q_phase s q) cl -> In q (cl_users s cl);
@@ -52,21 +52,25 @@ Proof.
   rewrite (D31 s H q L) in U. contradiction.
 Qed.
 
-(* q stops using cl and moves to a phase that uses nothing *)
-Lemma release_inv : forall s cl q gb ph, h3inv s -> uses_cl (q_phase s q) cl ->
-  (forall c, ~ uses_cl ph c) -> ph <> Q3None ->
-  h3inv (set3_q_phase (upd (q_phase s) q ph) (release s cl q gb)).
+Lemma remove1_length_In3 : forall r l, In r l -> length l = S (length (remove1 r l)).
 Proof.
-  intros s cl q gb ph H U Hph Hn.
+  induction l as [|x l IH]; simpl; intros H; [contradiction|].
+  destruct (Nat.eqb_spec x r); subst; auto.
+  destruct H as [E|E]; [congruence|]. simpl. rewrite <- IH; auto.
+Qed.
+
+(* q stops using cl (useCount.Add(-1)) and moves to a phase that uses nothing *)
+Lemma release_inv : forall s cl q ph, h3inv s -> uses_cl (q_phase s q) cl ->
+  (forall c, ~ uses_cl ph c) -> ph <> Q3None ->
+  h3inv (set3_q_phase (upd (q_phase s) q ph) (release s cl q)).
+Proof.
+  intros s cl q ph H U Hph Hn.
   assert (Hq : q < n_q s) by (eapply uses_lt; eauto).
   assert (Hin : In q (cl_users s cl)) by (apply (B33 s H); auto).
-  assert (Hlen : length (cl_users s cl) = S (length (remove1 q (cl_users s cl)))).
-  { clear - Hin. induction (cl_users s cl) as [|x l IH]; simpl in *; [contradiction|].
-    destruct (Nat.eqb_spec x q); subst; auto. destruct Hin as [E|E]; [congruence|].
-    simpl. rewrite <- IH; auto. }
+  pose proof (remove1_length_In3 q _ Hin) as Hlen.
   assert (Hnd : ~ In q (remove1 q (cl_users s cl))) by (apply remove1_not_In; apply (B31 s H)).
   destruct H as [a b1 b2 b3 c1 c2 d1 d2].
-  unfold release. destruct gb; constructor; simpl; intros; fin3q.
+  unfold release. constructor; simpl; intros; fin3q.
   all: try (rewrite a, Hlen; lia).
   all: try (apply remove1_NoDup; auto).
   all: try (exfalso; eapply Hph; eauto; fail).
@@ -93,12 +97,9 @@ Proof.
   intros s f H. destruct H as [a b1 b2 b3 c1 c2 d1 d2]. constructor; simpl; intros; fin3q.
 Qed.
 
-Lemma fresh_phase : forall s, h3inv s -> q_phase s (n_q s) = Q3None.
-Proof. intros s H. apply (D31 s H). lia. Qed.
-
 Ltac close3 a b1 b2 b3 c1 c2 d1 d2 Hnu :=
   fin3q;
-  try (rewrite a; lia);
+  try (rewrite a; simpl; lia);
   try (constructor; fin3q);
   try match goal with X : _ \/ _ |- _ => destruct X; subst; fin3q end;
   try match goal with X : _ = _ \/ False |- _ => destruct X as [X|[]]; subst; fin3q end;
@@ -109,30 +110,54 @@ Ltac close3 a b1 b2 b3 c1 c2 d1 d2 Hnu :=
   try match goal with X : In _ (cl_users _ _) |- _ => apply b2 in X; apply d2 in X; lia end;
   try match goal with X : uses_cl _ _ |- _ => apply d2 in X; lia end.
 
+(* getClient for a request that uses nothing yet *)
+Lemma get_client_inv : forall s q h, h3inv s -> q < n_q s -> (forall c, ~ uses_cl (q_phase s q) c) ->
+  h3inv (get_client s q h).
+Proof.
+  intros s q h H Hq Hno.
+  assert (Hnu : forall cl, ~ In q (cl_users s cl)).
+  { intros cl X. apply (B32 s H) in X. eapply Hno; eauto. }
+  unfold get_client.
+  assert (Hfresh : h3inv (set3_q_phase (upd (q_phase s) q (Q3Wait (n_cl s))) (new_client s (n_cl s) h 1%Z [q]))).
+  { unfold new_client. destruct H as [a b1 b2 b3 c1 c2 d1 d2].
+    constructor; simpl; intros; close3 a b1 b2 b3 c1 c2 d1 d2 Hnu. }
+  destruct (clients s h) as [cl|] eqn:Ec; auto.
+  destruct (stale s cl); auto.
+  destruct H as [a b1 b2 b3 c1 c2 d1 d2].
+  constructor; simpl; intros; close3 a b1 b2 b3 c1 c2 d1 d2 Hnu.
+Qed.
+
+Lemma fresh_phase : forall s, h3inv s -> q_phase s (n_q s) = Q3None.
+Proof. intros s H. apply (D31 s H). lia. Qed.
+
 Theorem h3_step_inv : forall s e, h3inv s -> h3inv (h3_step s e).
 Proof.
   intros s e H. destruct e; simpl.
   - (* E3Get *)
-    pose proof (fresh_phase s H) as Hf.
-    assert (Hnu : forall cl, ~ In (n_q s) (cl_users s cl)).
-    { intros cl X. apply (B32 s H) in X. rewrite Hf in X. contradiction. }
-    destruct (clients s h) as [cl|] eqn:Ec.
-    + destruct (cl_dial s cl) eqn:Ed; destruct H as [a b1 b2 b3 c1 c2 d1 d2];
-        constructor; simpl; intros; close3 a b1 b2 b3 c1 c2 d1 d2 Hnu.
-    + unfold new_client. destruct H as [a b1 b2 b3 c1 c2 d1 d2].
-      constructor; simpl; intros; close3 a b1 b2 b3 c1 c2 d1 d2 Hnu.
+    pose proof (fresh_phase s H) as Hf. apply get_client_inv.
+    + destruct H as [a b1 b2 b3 c1 c2 d1 d2]. constructor; simpl; intros; fin3q. apply d1; lia.
+    + simpl; lia.
+    + simpl. rewrite Hf. intros c X; exact X.
+  - (* E3Reget *)
+    destruct (q_phase s q) as [|cl|cl|h|ok] eqn:Ep; auto.
+    apply get_client_inv; auto.
+    + destruct (le_lt_dec (n_q s) q) as [L|L]; auto. rewrite (D31 s H q L) in Ep. discriminate.
+    + rewrite Ep. intros c X; exact X.
   - (* E3AddConn *)
     assert (Hnu : forall cl, ~ In (n_q s) (cl_users s cl)).
     { intros cl X. apply (B32 s H) in X. rewrite (fresh_phase s H) in X. contradiction. }
-    destruct (clients s h) as [cl|] eqn:Ec.
-    + destruct (cl_dial s cl); auto. apply drop_clients_inv; auto. apply upd_none_sub.
-    + unfold new_client. destruct H as [a b1 b2 b3 c1 c2 d1 d2].
-      constructor; simpl; intros; close3 a b1 b2 b3 c1 c2 d1 d2 Hnu.
+    assert (Hnew : h3inv (new_client s (n_cl s) h 0%Z [])).
+    { unfold new_client. destruct H as [a b1 b2 b3 c1 c2 d1 d2].
+      constructor; simpl; intros; close3 a b1 b2 b3 c1 c2 d1 d2 Hnu. }
+    destruct (clients s h) as [cl|] eqn:Ec; auto. destruct (stale s cl); auto.
   - (* E3DialDone *)
     destruct (cl <? n_cl s); auto. destruct (cl_dial s cl); auto.
     destruct H as [a b1 b2 b3 c1 c2 d1 d2]. constructor; simpl; intros; fin3q.
+  - (* E3ConnGone *)
+    destruct (cl <? n_cl s); auto. destruct (cl_dial s cl); auto.
+    destruct H as [a b1 b2 b3 c1 c2 d1 d2]. constructor; simpl; intros; fin3q.
   - (* E3Proceed *)
-    destruct (q_phase s q) as [|cl|cl|ok] eqn:Ep; auto.
+    destruct (q_phase s q) as [|cl|cl|h|ok] eqn:Ep; auto.
     destruct (cl_dial s cl) eqn:Ed; auto.
     + assert (U : uses_cl (q_phase s q) cl) by (rewrite Ep; reflexivity).
       assert (Hq : q < n_q s) by (eapply uses_lt; eauto).
@@ -141,22 +166,27 @@ Proof.
       all: try (rewrite Ep in *; simpl in *; subst; auto; fail).
       all: try match goal with X : In ?q0 (cl_users _ _) |- _ => apply b2 in X; rewrite Ep in X; simpl in X; subst; reflexivity end.
     + assert (U : uses_cl (q_phase s q) cl) by (rewrite Ep; reflexivity).
-      set (s0 := set3_clients (upd (clients s) (cl_host s cl) None) s).
-      assert (H0 : h3inv s0) by (apply drop_clients_inv; auto; apply upd_none_sub).
-      exact (release_inv s0 cl q false (Q3Done false) H0 U (fun c X => X) ltac:(discriminate)).
+      set (ph := if retry then Q3Again (cl_host s cl) else Q3Done false).
+      assert (Hph : forall c, ~ uses_cl ph c) by (subst ph; destruct retry; intros c X; exact X).
+      assert (Hn : ph <> Q3None) by (subst ph; destruct retry; discriminate).
+      pose proof (release_inv s cl q ph H U Hph Hn) as H1.
+      destruct (is_current (release s cl q) cl) eqn:Ecur; [|exact H1].
+      (* the entry is dropped: same state with fewer cache entries *)
+      exact (drop_clients_inv _ (upd (clients s) (cl_host s cl) None) H1
+               (fun h c X => upd_none_sub s (cl_host s cl) h c X)).
   - (* E3Abandon *)
-    destruct (q_phase s q) as [|cl|cl|ok] eqn:Ep; auto.
+    destruct (q_phase s q) as [|cl|cl|h|ok] eqn:Ep; auto.
     destruct (cl_dial s cl); auto.
     assert (U : uses_cl (q_phase s q) cl) by (rewrite Ep; reflexivity).
-    exact (release_inv s cl q false (Q3Done false) H U (fun c X => X) ltac:(discriminate)).
+    exact (release_inv s cl q (Q3Done false) H U (fun c X => X) ltac:(discriminate)).
   - (* E3Finish *)
-    destruct (q_phase s q) as [|cl|cl|ok'] eqn:Ep; auto.
+    destruct (q_phase s q) as [|cl|cl|h|ok'] eqn:Ep; auto.
     assert (U : uses_cl (q_phase s q) cl) by (rewrite Ep; reflexivity).
     destruct (negb ok && remove).
     + set (s0 := set3_clients (upd (clients s) (cl_host s cl) None) s).
       assert (H0 : h3inv s0) by (apply drop_clients_inv; auto; apply upd_none_sub).
-      exact (release_inv s0 cl q true (Q3Done ok) H0 U (fun c X => X) ltac:(discriminate)).
-    + exact (release_inv s cl q true (Q3Done ok) H U (fun c X => X) ltac:(discriminate)).
+      exact (release_inv s0 cl q (Q3Done ok) H0 U (fun c X => X) ltac:(discriminate)).
+    + exact (release_inv s cl q (Q3Done ok) H U (fun c X => X) ltac:(discriminate)).
   - (* E3CloseIdle *)
     apply drop_clients_inv.
     + apply closed_inv; auto.
@@ -174,10 +204,10 @@ Qed.
 
 (* ---------- theorems used by Properties/C09.v ---------- *)
 
-(* useCount = requests currently holding the client + counts that were never given back; in
-   particular it is never negative and never below the number of current users *)
+(* useCount = number of requests currently holding the client (waiting for its dial or inside
+   RoundTrip); in particular it is never negative *)
 Theorem h3_usecount : forall evs cl, let s := h3_run evs in
-  cl_use s cl = Z.of_nat (length (cl_users s cl) + cl_leak s cl) /\
+  cl_use s cl = Z.of_nat (length (cl_users s cl)) /\
   NoDup (cl_users s cl) /\
   (forall q, In q (cl_users s cl) <-> (q_phase s q = Q3Wait cl \/ q_phase s q = Q3Run cl)).
 Proof.
@@ -212,20 +242,20 @@ Proof.
 Qed.
 
 Theorem h3_reachable_snapshot_ok : forall evs hs n, let s := h3_run evs in
-  (forall cl, cl_leak s cl = 0) -> (forall cl, length (cl_users s cl) <= n) ->
+  (forall cl, length (cl_users s cl) <= n) ->
   h3snap_ok n (map (fun h => match clients s h with Some cl => cl_use s cl | None => 0%Z end) hs) = true.
 Proof.
-  intros evs hs n s Hl Hn. pose proof (h3_run_inv evs) as H. fold s in H.
+  intros evs hs n s Hn. pose proof (h3_run_inv evs) as H. fold s in H.
   unfold h3snap_ok. apply forallb_forall. intros u Hu. apply in_map_iff in Hu.
   destruct Hu as [h [E _]]. subst u. destruct (clients s h) as [cl|].
-  - rewrite (A3 s H), Hl. specialize (Hn cl). apply andb_true_intro. split; lia.
+  - rewrite (A3 s H). specialize (Hn cl). apply andb_true_intro. split; lia.
   - apply andb_true_intro. split; lia.
 Qed.
 
-(* the behaviour of the Go code as it is: a request that gives up while the dial is still in
-   progress keeps its useCount, so CloseIdleConnections can never close that client *)
-Example h3_abandon_leaks :
-  let s := h3_run [E3Get 5; E3Abandon 0; E3DialDone 0 true; E3CloseIdle; E3CloseIdle] in
-  clients s 5 = Some 0 /\ cl_use s 0 = 1%Z /\ cl_users s 0 = [] /\ cl_closed s 0 = false /\
+(* a request that gives up while the dial is still running gives its count back (repair
+   5efe32e): afterwards CloseIdleConnections can close the client *)
+Example h3_abandon_gives_back :
+  let s := h3_run [E3Get 5; E3Abandon 0; E3DialDone 0 true; E3CloseIdle] in
+  clients s 5 = None /\ cl_use s 0 = 0%Z /\ cl_users s 0 = [] /\ cl_closed s 0 = true /\
   q_phase s 0 = Q3Done false.
 Proof. vm_compute. repeat split. Qed.
